@@ -292,7 +292,12 @@ func findBackendTLSPolicyForService(
 	if beTLSPolicy != nil {
 		beTLSPolicy.IsReferenced = true
 		if !beTLSPolicy.Valid {
-			err = fmt.Errorf("the backend TLS policy is invalid: %s", beTLSPolicy.Conditions[0].Message)
+			// a policy that is ignored because its ancestor list is full is invalid without any condition
+			msg := "its status has no room for another ancestor"
+			if len(beTLSPolicy.Conditions) > 0 {
+				msg = beTLSPolicy.Conditions[0].Message
+			}
+			err = fmt.Errorf("the backend TLS policy is invalid: %s", msg)
 		} else {
 			beTLSPolicy.Conditions = append(beTLSPolicy.Conditions, staticConds.NewPolicyAccepted())
 		}
